@@ -152,7 +152,7 @@ def check_case(kind, pairs):
         if set(keys) != sh.present():
             fail(['C04', 'C06', 'C14'] if kind == 'pool' or cmd in ('cancel', 'sdrop') else ['C04'], i,
                  f'keys {sorted(keys)} but values+guards+pending justify {sorted(sh.present())} after `{req}`')
-            break
+            continue
         for (k, val, locked, refs) in ents:
             exp_locked = sh.held(k) or bool(sh.queue.get(k))
             if locked != exp_locked:
